@@ -5,8 +5,22 @@ Line-protocol front end of the C06 model (requests after the leading `C06` field
 
   run <pre|later> <shape>      shape = prefix tokens separated by single spaces:
         D | C k | S | B <prim> k | W <wrap> body k | G <id> body k | E d k
-        (wrap `fn` = a plain script call `func(){ body }()`; `E d k` = `defer func(){ d }()`
-        in the innermost function, then `k`)
+        (wrap `fn` = a plain script call `func(){ body }()`; wrap `imp` = `import m` of a
+        source module that has not been imported yet, `body` = the module's top-level code;
+        `E d k` = `defer func(){ d }()` in the innermost function, then `k`)
+  imported <pre|later> <shape>
+        what the case has to do with the context `importModule` hands to a module body, at the
+        instant of the cancellation (threads parked where `run` says): does the shape import
+        at all, is the main thread inside the top-level code of a module, the model's verdict
+        for it (`stops=`, must stop / never stops: `Risor.C06.stops`), the verdict of the
+        CONTRAST in which the module body is handed a context that is not cancelled with the
+        run's (`stops_detached=`: `stopsImp .detached`, exact by `Props.stopsImp_iff`;
+        `Props.importDetached_not_stopped`), the ids of the spawn sites whose function
+        inherits the module body's context (`inherit=`), and the spawned threads that exist at
+        the instant, end under the code as it is and would never end under the contrast
+        (`never_detached=`: a thread that inherits the module body's context is judged with a
+        context that never fires — `stopsNever`, `Props.inherited_ctx_never_fires_never_stops` —,
+        any other one, which may import modules itself, with `stopsImp .detached`)
   deferred <pre|later> <shape>
         the model's verdict for the main thread at the instant of the cancellation (parked
         where `run` says): `stops=1` must stop / `stops=0` never stops once its watcher has
@@ -43,6 +57,7 @@ def parseWrap : String → Option Wrap
   -- is cancelled with the run's (hf) / is not (hd); the prophecy bit is enumerated by `runCase`
   | "hf" => some (.host .follows false) | "hd" => some (.host .detached false)
   | "fn" => some .fn      -- a plain script call
+  | "imp" => some .imp    -- `import m`: the body is the top-level code of the module
   | _ => none
 
 def parseProg : Nat → List String → Option (Prog × List String)
@@ -163,7 +178,7 @@ def runCase (cfg : Cfg) (fresh : Bool) (entry : Entry) (instant : String) (p : P
 def withShape (shape : String) (f : Prog → String) : String :=
   let toks := shape.splitOn " "
   match parseProg (toks.length + 1) toks with
-  | some (p, []) => if wf p then f p else "error\toutside-the-model: blocking primitive, spawn, sorted, map, filter, script call or defer under a detached callee context; defer outside a function"
+  | some (p, []) => if wf p then f p else "error\toutside-the-model: blocking primitive, spawn, sorted, map, filter, script call, import or defer under a detached callee context; defer outside a function (a module's top-level code is not a function)"
   | _ => "error\tbad-shape"
 
 /-- the main thread at the instant of the cancellation, and what the frames it is inside of
@@ -181,8 +196,26 @@ def deferredCase (cfg : Cfg) (instant : String) (p : Prog) : String :=
       ++ "\tpending=" ++ toString ds.length
       ++ "\tloops=" ++ toString (ds.filter (fun d => !noSpin d)).length
 
+/-- the case seen from the context a module body is handed -/
+def importedCase (cfg : Cfg) (instant : String) (p : Prog) : String :=
+  let fuel := 2 * size p + 8
+  let s0 := init (setPop false p)
+  let sA := if instant = "pre" then s0 else settle cfg fuel s0
+  match sA.threads with
+  | [] => "error\tno-main-thread"
+  | m :: cl =>
+    let inh := inheritsImportCtx false p
+    let b := fun (x : Bool) => if x then "1" else "0"
+    let ids := fun (xs : List Nat) => if xs.isEmpty then "-" else ",".intercalate (xs.map toString)
+    let never := (cl.filter fun t => stops t &&
+      (if inh.contains t.id then !stopsNever t else !stopsImp .detached t)).map (·.id)
+    "ok\timports=" ++ b (hasImport p) ++ "\tmain_in_import=" ++ b (inImport m.frames)
+      ++ "\tstops=" ++ b (stops m) ++ "\tstops_detached=" ++ b (stopsImp .detached m)
+      ++ "\tinherit=" ++ ids inh ++ "\tnever_detached=" ++ ids never
+
 def handle : List String → String
   | ["deferred", instant, shape] => withShape shape (deferredCase implCfg instant)
+  | ["imported", instant, shape] => withShape shape (importedCase implCfg instant)
   | ["run", instant, shape] => withShape shape (runCase implCfg true .run instant)
   | ["runspec", instant, shape] => withShape shape (runCase specCfg true .run instant)
   | ["rerun", entry, instant, shape] =>
